@@ -491,6 +491,12 @@ func objectClone(in *object, out *object, clone *cloner) *object {
 		}
 	case argumentsObject:
 		out.value = value.clone(clone)
+	case *goSliceObject:
+		// The Go elements are shared with the host on purpose, but the slice
+		// header (length, capacity) kept in the wrapper belongs to one runtime:
+		// push and length on one copy must not show in another.
+		header := *value
+		out.value = &header
 	}
 
 	return out
